@@ -37,6 +37,8 @@ def generate(rng, tier='quick', stack=None, focus='general', **kw):
     return generate_blocked_first(rng, tier, **kw)
   if focus == 'general' and rng.random() < 0.04:
     return generate_open_race(rng, tier, stack, **kw)
+  if focus == 'general' and stack == 'mux' and rng.random() < 0.04:
+    return generate_ping_block(rng, tier, **kw)
   if focus == 'general' and stack == 'thrift' and rng.random() < 0.03:
     return generate_clock_race(rng, tier, **kw)
   stack = stack or rng.choice(['thrift', 'mux'])
@@ -157,6 +159,12 @@ def generate(rng, tier='quick', stack=None, focus='general', **kw):
     if stack == 'mux' and rng.random() < 0.35:
       op['props'] = {rng.choice(PROP_KEYS): rng.choice(PROP_VALS)
                      for _ in range(rng.randint(1, 2))}
+    if m == 'echo' and rng.random() < 0.12:
+      # a method with several arguments of different types, falsy values among
+      # them, some or all but the first passed by keyword
+      op['method'] = 'join'
+      op['join'] = {'t': rng.choice(['', '', 'x', 'héllo']), 'n': rng.choice([0, 0, 7, -1]),
+                    'f': rng.choice([False, False, True]), 'kw': rng.choice(['none', 'some', 'all'])}
     if rng.random() < 0.02 and m in ('echo', 'poke', 'hi', 'relay'):
       op['badarg'] = True          # an argument the Thrift codec cannot serialise: fails before the wire
     elif rng.random() < 0.02 and scn['net']['chunk'] != 'bytes':
@@ -268,6 +276,47 @@ def generate_blocked_first(rng, tier='quick', **kw):
   scn['ops'] = ops
   scn['faults'] = []
   scn['directives'] = [{'ep': None, 'conn': 0, 'op': 'send', 'index': None, 'nth': 2, 'kind': 'block', 'arg': block}]
+  return scn
+
+
+def generate_ping_block(rng, tier='quick', **kw):
+  """ThriftMux under back-pressure when the periodic ping is due (30-40 s after
+  the connection opened): a request frame is parked half-way in the socket for
+  longer than that, further requests queue up behind it.  Whatever the
+  transport makes of it (the ping can only be written once the parked frame is
+  complete; its timeout kills the connection), the byte stream stays framed."""
+  scn = {'world': 'w_stack', 'stack': 'mux', 'balancer': rng.choice(['aperture', 'heap']), 'focus': 'general',
+         'iface': 'sim', 'client_id': rng.choice([None, 'cid']),
+         'eps': [{'latency': rng.choice([0.0005, 0.003]), 'mode': 'up'}]}
+  cfg = {'timeout': 2.0, 'open_timeout': None,
+         'resurrector': {'initial_wait_interval': 5, 'max_wait_interval': 30, 'backoff_exponent': 1.5},
+         'members_dynamic': False, 'get_servers_delay': 0, 'init_failures': 0,
+         'tag_base': None, 'answer_discards': True, 'adversarial': False}
+  if scn['balancer'] == 'aperture':
+    cfg['aperture'] = {'min_size': 1, 'max_size': 2 ** 31, 'min_load': 0.5, 'max_load': 2.0,
+                       'jitter_min_sec': 0, 'jitter_max_sec': 240}
+  scn['cfg'] = cfg
+  scn['net'] = {'chunk': rng.choice(['none', 'some']), 'jitter': 0.0, 'dns_multi': False}
+  scn['loop'] = {}
+  scn['permute_sets'] = False
+  k = rng.randint(0, 2)
+  ops = [{'t': round(0.3 + 0.2 * i, 3), 'op': 'call', 'id': 'c%d' % i, 'method': 'echo', 'payload': 'x', 'timeout': 2.0,
+          'svc': {'delay': 0.01}, 'via': 'dispatch'} for i in range(k)]
+  tb = rng.choice([29.0, 29.5, 29.9])
+  ops.append({'t': tb, 'op': 'call', 'id': 'c%d' % k, 'method': 'echo', 'payload': 'p' * rng.choice([10, 200, 3000]),
+              'timeout': rng.choice([2.0, 20.0]), 'svc': {'delay': 0.01}, 'via': 'dispatch'})
+  t = tb
+  for i in range(k + 1, k + 1 + rng.randint(0, 3)):
+    t += rng.choice([0.001, 0.5, 3.0])
+    ops.append({'t': round(t, 4), 'op': 'call', 'id': 'c%d' % i, 'method': rng.choice(['echo', 'risky']),
+                'payload': rng.choice(PAYLOADS), 'timeout': rng.choice([1.0, 20.0]), 'svc': {'delay': 0.01},
+                'via': 'dispatch'})
+  scn['ops'] = ops
+  scn['faults'] = []
+  # sends on the connection: the ping of the open handshake, the k early requests, then the parked one
+  scn['directives'] = [{'ep': None, 'conn': 0, 'op': 'send', 'index': None, 'nth': k + 2, 'kind': 'block',
+                        'arg': rng.choice([12.0, 14.0])}]
+  scn['horizon_extra'] = 30.0
   return scn
 
 
@@ -452,6 +501,28 @@ def generate_c09(rng, tier='quick', stack=None, **kw):
     scn['directives'] = []
     scn['horizon_extra'] = res['max_wait_interval'] + 6.0
     scn['c09'] = {'spacing': 1.0, 'last_heal': 0.0, 'end': t}
+    return scn
+  if balancer == 'aperture' and n_eps >= 2 and rng.random() < 0.12:
+    # an aperture smaller than the server set whose idle members are
+    # unreachable (nobody has noticed: they are idle); a burst of slow calls is
+    # outstanding when the client is closed, so that closing the members'
+    # channels completes requests, and completions adjust the aperture, in the
+    # middle of Close()
+    cfg['aperture']['min_size'] = 1
+    cfg['timeout'] = 10.0
+    t0 = rng.choice([1.0, 2.0])
+    ops = [{'t': 0.2 + 0.1 * i, 'op': 'call', 'id': 'c%d' % i, 'method': 'echo', 'payload': 'x', 'timeout': None,
+            'svc': {'delay': 0.005}, 'via': 'dispatch'} for i in range(3)]
+    nb = rng.choice([6, 8, 12])
+    for i in range(3, 3 + nb):
+      ops.append({'t': t0, 'op': 'call', 'id': 'c%d' % i, 'method': rng.choice(['echo', 'risky']), 'payload': 'x',
+                  'timeout': None, 'svc': {'delay': 8.0}, 'via': 'dispatch'})
+    scn['ops'] = ops
+    scn['faults'] = [{'t': 0.6, 'do': 'crash_idle'},
+                     {'t': round(t0 + rng.choice([1.5, 2.5, 4.0]), 3), 'do': 'close', 'snap': False}]
+    scn['directives'] = []
+    scn['horizon_extra'] = res['max_wait_interval'] + 6.0
+    scn['c09'] = {'spacing': 1.0, 'last_heal': 0.0, 'end': t0 + 4.0}
     return scn
   faults = []
   t = rng.choice([0.0, 0.0, 0.5, 3.0])
